@@ -37,7 +37,31 @@ def enumerate_cases(tier: str, seed: int) -> list[dict[str, Any]]:
 
     for name in fnmods7.programs(True):
         cases.append({"key": f"fn:{name}", "src": "fn", "name": name, "cost": 1.0})
+    for name in _fold_programs():
+        cases.append({"key": f"fold:{name}", "src": "fold", "name": name, "cost": 1.0})
     return recs.only_filter(cases)
+
+
+def _fold_programs() -> dict[str, dict[str, Any]]:
+    """Programs whose export goes through the shape-rewriting optimizer folds."""
+    import jax
+    import jax.numpy as jnp
+
+    P: dict[str, dict[str, Any]] = {}
+    X = [(2, 3, 4)]
+    un = {"tanh": jnp.tanh, "elu": jax.nn.elu, "relu": jax.nn.relu, "sigmoid": jax.nn.sigmoid, "gelu": jax.nn.gelu, "leaky_relu": jax.nn.leaky_relu,
+          "abs": jnp.abs, "neg": jnp.negative, "exp": jnp.exp, "clip": lambda v: jnp.clip(v, -0.2, 0.2), "max0": lambda v: jnp.maximum(v, 0.1), "swish": jax.nn.silu}
+    names = list(un)
+    for i, a in enumerate(names):
+        for b in names[i + 1:: 3]:
+            P[f"reshape_{a}_{b}_reshape"] = {"fn": (lambda fa, fb: lambda x: fb(fa(x.reshape(-1))).reshape(2, 3, 4) * 2.0 + 1.0)(un[a], un[b]), "shapes": X}
+            P[f"transpose_{a}_{b}_transpose"] = {"fn": (lambda fa, fb: lambda x: jnp.transpose(fb(fa(jnp.transpose(x, (2, 0, 1)))), (1, 2, 0)) + x)(un[a], un[b]), "shapes": X}
+    P["reshape_not_chain"] = {"fn": lambda x: jnp.logical_not(jnp.logical_not((x > 0).reshape(-1))).reshape(2, 3, 4), "shapes": X}
+    P["reshape_three_chain"] = {"fn": lambda x: jax.nn.elu(jnp.tanh(jax.nn.relu(x.reshape(6, 4)))).reshape(2, 3, 4) - x, "shapes": X}
+    P["reshape_chain_symbolic"] = {"fn": lambda x: jax.nn.elu(jnp.tanh(x.reshape(x.shape[0], -1))).reshape(x.shape[0], 3, 4) * 3.0, "shapes": [("B", 3, 4)]}
+    P["nchw_reduce_mean_chain"] = {"fn": lambda x: jax.nn.elu(x - jnp.mean(x, axis=(1, 2), keepdims=True)) * 2.0, "shapes": [(2, 4, 4, 3)], "kw": {"inputs_as_nchw": [0], "outputs_as_nchw": [0]}}
+    P["cast_roundtrip_chain"] = {"fn": lambda x: jax.nn.elu(x.astype(jnp.float64).astype(jnp.float32).reshape(-1)).reshape(2, 3, 4), "shapes": X}
+    return P
 
 
 # ----------------------------------------------------------------------------
@@ -131,10 +155,10 @@ def _prog_for(case: dict[str, Any]) -> tuple[programs.Program, list[list[np.ndar
         from checks import c04
 
         return c04._build_shape_prog({"name": case["name"], "dp": False, "key": case["key"]}), None
-    if case["src"] == "fn":
+    if case["src"] in ("fn", "fold"):
         from vlib import fnmods7
 
-        D = fnmods7.programs(True)[case["name"]]
+        D = fnmods7.programs(True)[case["name"]] if case["src"] == "fn" else _fold_programs()[case["name"]]
         dts = D.get("dtypes") or [np.float32] * len(D["shapes"])
         kw = dict(D.get("kw", {}))
         dp = bool(kw.pop("enable_double_precision", False))
@@ -142,7 +166,7 @@ def _prog_for(case: dict[str, Any]) -> tuple[programs.Program, list[list[np.ndar
         import jax
 
         return programs.Program(
-            pid=case["key"], family=f"fn/{case['name']}", make_fn=lambda: D["fn"],
+            pid=case["key"], family=f"{case['src']}/{case['name']}", make_fn=lambda: D["fn"],
             specs=lambda: [jax.ShapeDtypeStruct(tuple(s), np.float64 if dp and dt == np.float32 else dt) for s, dt in zip(D["shapes"], dts)],
             signature=lambda b: [(tuple(int(b.get(d, 3)) if isinstance(d, str) else int(d) for d in s), np.dtype(np.float64 if dp and dt == np.float32 else dt)) for s, dt in zip(D["shapes"], dts)],
             dp=dp, kwargs=kw, symbols=syms, source="fn"), None
